@@ -144,10 +144,24 @@ type TX struct { // table "ts" of the executed stream
 
 func (TX) TableName() string { return "ts" }
 
+// ctxKey: the key under which a handle's context carries its tag (Session{Context}); hooks show it
+type ctxKey struct{}
+
+func ctxTag(ctx context.Context) int64 {
+	if ctx == nil {
+		return -1
+	}
+	if v, ok := ctx.Value(ctxKey{}).(int64); ok {
+		return v
+	}
+	return 0
+}
+
 // hooks whose effect is visible in what is loaded (AfterFind) and in the bound values (BeforeCreate)
 // (and that make Set / InstanceSet values of the statement visible in the results)
 func (t *TX) AfterFind(tx *gorm.DB) error {
 	t.K4 += 1000
+	t.K4 += ctxTag(tx.Statement.Context) * 10000000 // the context the hook runs under
 	if v, ok := tx.Get("c06:tag"); ok {
 		t.K4 += v.(int64)
 	}
@@ -158,13 +172,17 @@ func (t *TX) AfterFind(tx *gorm.DB) error {
 }
 func (u *U) AfterFind(tx *gorm.DB) error {
 	u.C3 += 5000
+	u.C3 += ctxTag(tx.Statement.Context) * 10000000
 	if v, ok := tx.Get("c06:tag"); ok {
 		u.C3 += v.(int64)
 	}
 	return nil
 }
-func (t *TX) BeforeCreate(*gorm.DB) error { t.C3 = 77; return nil }
-func (u *U) BeforeCreate(*gorm.DB) error  { u.C2 = 88; return nil }
+func (t *TX) BeforeCreate(tx *gorm.DB) error {
+	t.C3 = 77 + ctxTag(tx.Statement.Context)*100
+	return nil
+}
+func (u *U) BeforeCreate(tx *gorm.DB) error { u.C2 = 88 + ctxTag(tx.Statement.Context)*100; return nil }
 func (U) TableName() string               { return "us" }
 
 func openExec() (*gorm.DB, *recdrv.Recorder) {
@@ -708,7 +726,19 @@ func applySess(db *gorm.DB, k string) *gorm.DB {
 			cfg.NowFunc = func() time.Time { return time.Unix(1700000000, 0) }
 		case "logger":
 			cfg.Logger = logger.Discard
+		case "cctx": // a context that is already cancelled: whatever runs under it fails
+			ctx, cancel := context.WithCancel(context.Background())
+			cancel()
+			cfg.Context = ctx
+		case "bctx":
+			cfg.Context = context.Background()
 		default:
+			if strings.HasPrefix(o, "vctx") { // a context that carries a tag (seen by hooks, read back from the statement)
+				n, err := strconv.ParseInt(o[4:], 10, 64)
+				lib.Must(err)
+				cfg.Context = context.WithValue(context.Background(), ctxKey{}, n)
+				continue
+			}
 			panic("unknown session " + k)
 		}
 	}
@@ -1595,6 +1625,9 @@ func genExec(r *lib.Rng) Input {
 		cur = push(Step{K: "derive", P: cur, Op: &Op{K: "x_where", Names: []string{col()}, N: int64(r.Range(0, 4))}})
 	}
 	xsess := func() string {
+		if r.Chance(1, 3) {
+			return randSess(r)
+		}
 		return lib.Pick(r, []string{"plain", "plain", "ctx", "debug", "skiphooks", "skiphooks", "dryrun", "queryfields", "fullsave",
 			"allowglobal", "batchsize", "skipdeftx", "nonested", "skiphooks+queryfields", "dryrun+skiphooks", "queryfields+allowglobal+batchsize",
 			"preparestmt", "preparestmt+skiphooks", "propagateunscoped", "propagateunscoped+newdb", "nowfunc", "logger"})
@@ -1801,7 +1834,7 @@ func main() {
 		nexec = a.N / 3
 	}
 	// fork cases: every (chain method, argument form) on a chain forked from a judged handle, every run
-	nfork, per := 60, 4
+	nfork, per := 72, 4
 	if a.Tier == "thorough" {
 		nfork = 400
 	}
